@@ -139,6 +139,10 @@ enum XOp {
     /// which: 0 is_subset 1 is_superset 2 is_disjoint
     SetPred { mask: u8, which: u8 },
     SetEq { mask: u8 },
+    /// a lazy set-algebra iterator (which: 0 union 1 intersection 2 difference 3 symmetric_difference),
+    /// cloned and collected into a `Set<Lk, cap>`: under lying answers it may yield more items than its
+    /// size_hint promised, or than the target can hold - the collection must then panic, not overrun
+    SetCollect { mask: u8, which: u8, cap: u8 },
 }
 
 fn seqs(nk: u8, maxlen: usize) -> Vec<Vec<u8>> {
@@ -183,6 +187,11 @@ fn xops(n: usize, nk: u8, jmax: usize) -> Vec<XOp> {
         }
         for which in 0..3 {
             v.push(XOp::SetPred { mask, which });
+        }
+        for which in 0..4 {
+            for cap in 1..=3u8 {
+                v.push(XOp::SetCollect { mask, which, cap });
+            }
         }
     }
     for take in 0..=(n as u8) {
@@ -353,6 +362,7 @@ fn run_xop<const N: usize>(r: &Run, x: XOp, devs: u64, cx: &mut Ctx) -> u32 {
             | XOp::SetAlgebra { .. }
             | XOp::SetPred { .. }
             | XOp::SetEq { .. }
+            | XOp::SetCollect { .. }
     );
     if is_set {
         setbx = Some(build_set::<N>(&keys, r.stale, nk));
@@ -605,6 +615,30 @@ fn run_xop<const N: usize>(r: &Run, x: XOp, devs: u64, cx: &mut Ctx) -> u32 {
             let o = other_set(mask, &keys, nk);
             let s = &setbx.as_ref().unwrap().c;
             let _ = armed!(s == &o.c);
+            exercise_and_drop_set(o, nk, cx, PM, false);
+        }
+        XOp::SetCollect { mask, which, cap } => {
+            let o = other_set(mask, &keys, nk);
+            let s = &setbx.as_ref().unwrap().c;
+            macro_rules! collect_into {
+                ($C:literal) => {{
+                    let res = armed!(match which {
+                        0 => Canary::boxed(s.union(&o.c).cloned().collect::<Set<Lk, $C>>()),
+                        1 => Canary::boxed(s.intersection(&o.c).cloned().collect::<Set<Lk, $C>>()),
+                        2 => Canary::boxed(s.difference(&o.c).cloned().collect::<Set<Lk, $C>>()),
+                        _ => Canary::boxed(s.symmetric_difference(&o.c).cloned().collect::<Set<Lk, $C>>()),
+                    });
+                    if let Ok(c) = res {
+                        cx.check(PM, c.intact(), || "a canary next to the collected set was overwritten".to_string());
+                        exercise_and_drop_set(c, nk, cx, PM, false);
+                    }
+                }};
+            }
+            match cap {
+                1 => collect_into!(1),
+                2 => collect_into!(2),
+                _ => collect_into!(3),
+            }
             exercise_and_drop_set(o, nk, cx, PM, false);
         }
     }
